@@ -20,6 +20,9 @@ const (
 	Thorough Tier = "thorough"
 )
 
+// CurrentTier is the tier of the check being executed (visitors may scale their own effort with it).
+var CurrentTier = Quick
+
 // Run is one scenario exploration inside a check.
 type Run struct {
 	S   *Scenario
@@ -108,6 +111,7 @@ func seed() int {
 // returns the process exit code.
 func (c *Check) Execute(t Tier) int {
 	t0 := time.Now()
+	CurrentTier = t
 	known := LoadKnown()
 	ev := &Evidence{PropertyID: c.ID, Tier: string(t), Seed: seed(), Level: c.Level, Coverage: map[string]any{}, Assumptions: c.Assumptions}
 	if ev.Level == "" {
@@ -120,6 +124,7 @@ func (c *Check) Execute(t Tier) int {
 	var all []Violation
 	var scen []Stats
 	states, trans, replayed, evals := 0, 0, 0, 0
+	unconfirmed := 0
 	exhaustive := true
 	var samples []any
 	outcomes := map[string]int{}
@@ -139,11 +144,15 @@ func (c *Check) Execute(t Tier) int {
 		for k, v := range st.Outcomes {
 			outcomes[k] += v
 		}
-		// believe a violation only if it reproduces on two fresh replays
+		// believe a violation only if it reproduces on two fresh replays (fresh application, whole
+		// path from genesis, no restore): that is what a real node executing this history does. A
+		// discrepancy seen only on a re-used, restored instance is an artefact of state the
+		// application keeps outside its database (C01's subject), not a violation of this property.
 		for _, v := range vs {
 			if !r.S.Confirm(v) {
-				fmt.Fprintf(os.Stderr, "HARNESS-NONDETERMINISM: %s path %v does not reproduce: %s\n", r.S.Name, v.Path, v.Disc.Detail)
-				return 2
+				fmt.Fprintf(os.Stderr, "UNCONFIRMED: %s path %v does not reproduce on a fresh application: %s: %s\n", r.S.Name, v.Path, v.Disc.Kind, v.Disc.Detail)
+				unconfirmed++
+				continue
 			}
 			all = append(all, v)
 		}
@@ -208,6 +217,16 @@ func (c *Check) Execute(t Tier) int {
 	}
 	sort.Strings(kf)
 	ev.Coverage["known_findings_hit"] = kf
+	ev.Coverage["unconfirmed_discrepancies"] = unconfirmed
+	if unconfirmed > 0 && len(all) == 0 {
+		// nothing reproducible was found, but the exploration saw behaviour that a fresh application does
+		// not show: the explored instances carried state outside the database, so what was covered
+		// cannot be trusted. Not a verdict on this property.
+		fmt.Fprintf(os.Stderr, "HARNESS-NONDETERMINISM: %d discrepancies seen during the exploration do not reproduce on fresh applications and none does; the application keeps state outside its database (see C01)\n", unconfirmed)
+		ev.WallS = time.Since(t0).Seconds()
+		WriteEvidence(ev)
+		return 2
+	}
 	ev.Violations = nviol
 	ev.WallS = time.Since(t0).Seconds()
 	WriteEvidence(ev)
